@@ -4,15 +4,19 @@ import json
 
 CLAIMED = {
  "C01": dict(
-   cat="model_checking", tech="enum-level symbolic execution of rustc MIR + SMT for operator-expression emission (token-exact), composed with the C04 (MIR->SMT) and C05 (Kani/CBMC) helper-kernel obligations",
+   cat="model_checking", tech="enum-level symbolic execution of rustc MIR + SMT (z3/cvc5) over the parser's operator levels, the lowering of expressions and statements and the token-exact emission of operators, statements, literals and call arguments; composed with the C04 (MIR->SMT) and C05 (Kani/CBMC) helper-kernel obligations",
    text="Solver-based, bounded, KERNEL of the property: (a) the emitter's operator-expression paths (emit_binop_expr, the unary arm of emit_expr, determine_binop_plan) "
         "are symbolically executed from the whole-crate MIR with every operator/operand-type tag symbolic; each feasible path yields the exact Rust tokens it emits, "
         "which are parsed with Rust's precedence table and compared with the IR tree (operand order, conversions, documented operator form, grouping at nesting depth 2); "
         "(b) the run-time helpers the emitted code calls for / // % (all C04 obligations) and for indexing, slicing and range (all C05 harnesses) are decided as under C04/C05; "
         "(c) the front half of the same chain: the operator levels of the parser (token -> AST operator, associativity, precedence ladder) and the binary / unary / "
-        "index / slice arms of AstLowering::lower_expr (same operator, operands in order) are executed as slices with sub-parsers / recursive lowering summarised by arbitrary results.",
-   note="Kernel-only: statements, control flow, calls, pattern matching, mutation, collection literals, f-strings and every other lowering/emission path are NOT "
-        "covered (they build HashMaps/iterate Vecs and are outside both engines, DESIGN section 3). One known finding: nested operator expressions lose their parentheses "
+        "index / slice arms of AstLowering::lower_expr (same operator, operands in order) are executed as slices with sub-parsers / recursive lowering summarised by arbitrary results; "
+        "(d) statements and control flow: lowering of if/elif/else ladders (source order, own scopes), of `name = value` (binding vs mutation over the whole scope chain), of field/index "
+        "assignment, return, while, for, break, continue; emission of if/else, while/loop, blocks; emission of list/tuple/set/dict literals, if/block expressions; and the slot each "
+        "argument of a keyword call is emitted in (parameter order by name) - statement lists, elif lists, scope chains, argument and parameter lists as symbolic sequences of 0..=3 (thorough 0..=5/4).",
+   note="Kernel-only: pattern matching, comprehensions, closures, f-strings, method calls, struct construction, declarations (functions, models, classes, enums, traits), "
+        "per-argument conversions/borrows and every other lowering/emission path are NOT covered; sub-expressions and sub-statements are atoms in each obligation (nesting is "
+        "covered by composition of the per-node obligations, not executed). One known finding: nested operator expressions lose their parentheses "
         "(`(a + b) * c` -> `a + b * c`), recorded in known_findings.json; any other mis-grouping or operand/operator mix-up is still reported.",
    ref="DESIGN.md section 0.5, C01"),
  "C06": dict(
@@ -20,15 +24,21 @@ CLAIMED = {
    text="Solver-based, bounded, KERNEL of the property: the functions the compile-time evaluator calls (incan_core numeric kernels, incan_core::strings::"
         "str_char_at / str_slice) and the functions a function body executes at run time (incan_stdlib kernels and wrappers str_index / str_slice) are "
         "decided to give the same value and the same error for every argument: numeric parity over all i64 pairs / all floats (quick: f32), string "
-        "index/slice against the same CPython oracle for every i64 / Option<i64> argument on strings mixing 1-4-byte scalars.",
-   note="Kernel-only: the const evaluator's own dispatch (which operation it applies, its type/kind decisions, cycle detection) and const emission are "
-        "TypeChecker/TokenStream code and are NOT covered; what is covered is that the shared core and the runtime library cannot drift apart.",
+        "index/slice against the same CPython oracle for every i64 / Option<i64> argument on strings mixing 1-4-byte scalars; and the const evaluator's own "
+        "binary arm (X-const_binary, E2-X slice of TypeChecker::eval_const_expr): the type it assigns follows the documented numeric table for all operand "
+        "types / operators / exponent shapes, and what it folds - and/or of known bools, `in` / `not in` / `+` on known strings - is the logical operation "
+        "resp. the shared core kernel applied to the operands in source order (folded values replayed through the public TypeCheckInfo::const_value).",
+   note="Kernel-only: the rest of the const evaluator (literals, names, unary, collections, cycle detection, the const/frozen kind) and const emission are "
+        "NOT covered; numeric const expressions are not folded by the evaluator at all (value None: the initializer is emitted as Rust), so their run-time "
+        "agreement rests on the emission obligations of C01/C07.",
    ref="DESIGN.md section 0.5, C06"),
  "C13": dict(
    cat="model_checking", tech="bounded model checking of the compiled code (Kani/CBMC, symbolic identifier) + enum-level MIR symbolic execution of the emission plan",
    text="Solver-based, bounded, KERNEL of the property: (a) for EVERY identifier-shaped name of 2..8 bytes the keyword table used for escaping (is_keyword) recognises every "
         "Rust 2021 strict/reserved keyword that can be a raw identifier (oracle: the Rust Reference lists) and never `self`/`Self`/`_`; (b) every runtime helper the "
-        "operator emission plan can emit is referred to by an absolute `incan_stdlib::...` path on every plan path, so no user-chosen name can capture it.",
+        "operator emission plan can emit is referred to by an absolute `incan_stdlib::...` path on every plan path, so no user-chosen name can capture it; "
+        "(c) constructor detection (X-lower_ctor): a call `Name(args)` is lowered as a construction exactly when Name is a known struct or its first character is upper-case "
+        "(the two tests as arbitrary answers), with the arguments as fields in order - never for other names.",
    note="Kernel-only: the emission SITES (which identifiers are passed through the escaper: fields, methods, types, generated temporaries), the constructor/capitalisation "
         "heuristics and name clashes with prelude items are TokenStream/HashMap code and are NOT covered; escape_keyword itself is private (no hook added).",
    ref="DESIGN.md section 0.5, C13"),
@@ -57,25 +67,42 @@ CLAIMED = {
    text="Solver-based: the shared numeric policy (result_numeric_type, needs_float_promotion, from_literal_info), the four operator/type adapters and the "
         "three exponent classifiers are decided against the documented table for every operator x operand-kind x exponent-kind combination and every i64 literal "
         "(Kani); the IR-side adapters, lowering's lower_binop/binary_result_type, the emitter's determine_binop_plan (result type, conversions, emission form) "
-        "and the rule bodies of the type checker's check_binary and compound-assignment arm are symbolically executed from the whole-crate MIR with every enum "
+        "and the rule bodies of the type checker's check_binary, compound-assignment arm and of the const evaluator's binary arm are symbolically executed from the whole-crate MIR with every enum "
         "tag symbolic and decided by z3/cvc5; models are replayed natively (plan) or as generated programs through the public type-check API.",
    note="The checker/lowering traversals themselves (recursion over sub-expressions, scopes) are summarised by arbitrary operand types, i.e. each rule is "
-        "decided for all operand types but nesting is not executed; the const evaluator and rustc's typing of the emitted expression are not encoded; "
+        "decided for all operand types but nesting is not executed; rustc's typing of the emitted expression is not encoded; "
         "exponent parentheses up to depth 2.",
    ref="DESIGN.md section 4, C07"),
  "C11": dict(
-   cat="model_checking", tech="bounded model checking of the compiled code (Kani/CBMC, symbolic UTF-8 source and span)",
-   text="Solver-based, bounded, ONE mechanism of the property: terminal rendering of a diagnostic (format_error/get_line_info) cannot panic for any "
+   cat="model_checking", tech="bounded model checking of the compiled code (Kani/CBMC, symbolic UTF-8 source and span) + SMT-checked inductive step of the parser's token cursor from its MIR (z3, cvc5 cross-check)",
+   text="Solver-based, bounded, TWO mechanisms of the property: (a) the parser's token cursor: from EVERY state with a non-empty buffer ending in Eof (any length up to 2^62) and pos inside it, "
+        "each cursor helper (peek, peek_next, advance, check*, match_*, expect*, skip_*, synchronize) returns without an out-of-bounds index or arithmetic overflow, never moves backwards and "
+        "keeps pos inside the buffer (one inductive step; advance and its unguarded callers under the precondition 'a token was consumed or the current token is not Eof'); (b) terminal rendering of a diagnostic (format_error/get_line_info) cannot panic for any "
         "valid-UTF-8 source of <= 4 bytes (thorough: 6) and any span (inside, empty, reversed, past the end, mid-scalar); the editor range half is C19's span obligation.",
-   note="Kernel-only: totality of the lexer, parser, type checker, formatter and --emit-rust is NOT covered (CBMC does not get through them, DESIGN section 3); "
+   note="Kernel-only: totality of the lexer, of the parser's grammar functions (incl. that each call site of advance establishes its precondition), type checker, formatter and "
+        "--emit-rust is NOT covered (CBMC does not get through them, DESIGN sections 0.5 and 3); "
         "alloc::fmt::format is stubbed (the slicing/caret arithmetic is outside format!).",
    ref="DESIGN.md section 4, C11"),
  "C14": dict(
-   cat="model_checking", tech="bounded model checking of the compiled code (Kani/CBMC, symbolic visibility per declaration kind)",
-   text="Solver-based, ONE mechanism of the property: the export filter (exported_symbols) exports a declaration iff it is `pub`, under the right kind and name, "
-        "for each of the 9 declaration kinds.",
-   note="Kernel-only: path resolution (CLI vs LSP agreement), validate_import_visibility, cycle detection are file-system/HashMap code and are NOT covered.",
+   cat="model_checking", tech="bounded model checking of the compiled code (Kani/CBMC, symbolic visibility per declaration kind) + enum-level symbolic execution of rustc MIR with SMT-decided name equality (z3) for the importer-side visibility check",
+   text="Solver-based, the VISIBILITY half of the property: (a) the export filter (exported_symbols) exports a declaration iff it is `pub`, under the right kind and name, "
+        "for each of the 9 declaration kinds (Kani); (b) the importer side (validate_import_visibility, E2-X): for `from m import x, ..` the dependency's exports are looked "
+        "up under the whole module path joined with `_`, and exactly the items whose name equals no exported name (incl. variant names) are reported - for 0..=3 exported "
+        "symbols of every kind x 0..=3 items with symbolic names; nothing is reported for other import forms or modules without recorded exports.",
+   note="Kernel-only: path resolution (which file an import refers to; CLI vs LSP agreement), cycle detection and missing modules are file-system code and are NOT covered; "
+        "the visibility rule is only applied to `from m import x` by the code (`import a::b` then `b.x` is not checked) and that gap is not decided here.",
    ref="DESIGN.md section 4, C14"),
+ "C17": dict(
+   cat="model_checking", tech="enum-level symbolic execution of rustc MIR + SMT (z3/cvc5): the call-site rewrite in AstLowering::lower_expr and the nominal arm of TypeChecker::types_compatible",
+   text="Solver-based, TWO mechanisms of the property: (a) the call rewrite (X-lower_ctor): for `Name(args)` with Name a known struct or capitalised, when a validation hook is "
+        "recorded for Name, the call has exactly one positional argument and the site is not inside Name's own methods, the IR is `Name::<hook>(lowering of the argument).expect(..)` - "
+        "on every path, for 0..=2 (thorough 3) arguments, with the map lookups / capitalisation / inside-own-impl answers arbitrary; otherwise a plain struct literal with the "
+        "arguments in order; (b) nominal typing (X-newtype_nominal): a value of type Named(a) is accepted where Named(b) is declared iff the names are equal and never where "
+        "int / float / bool / str / bytes / None is declared (built-in frozen string/bytes names excepted), so two newtypes over one underlying type are not interchangeable.",
+   note="Kernel-only: WHICH hook is recorded (select_newtype_checked_ctor: from_underlying preferred, a single from_*), WHEN it is recorded (pre-pass), how current_impl_type is "
+        "maintained while methods are lowered, the hook's own run-time behaviour and the emission of the rewritten call are NOT covered; two of the three round-2 seeded changes "
+        "for this property (hook selection, registration pass) are outside this kernel.",
+   ref="DESIGN.md section 0.5, C17"),
  "C19": dict(
    cat="model_checking", tech="bounded model checking of the compiled code (Kani/CBMC, symbolic UTF-8 document, offsets, positions)",
    text="Solver-based, bounded: for EVERY valid-UTF-8 document of <= 4 bytes (thorough: 6, round trip 8) and every boundary offset / offset pair / Position / "
@@ -95,7 +122,6 @@ NA = {
  "C12": "the property is about HashMap iteration order under random SipHash keys; hashbrown + SipHash with symbolic keys is far beyond the 2-insert measurement",
  "C15": "add_rust_crate/generate_cargo_toml insert into and iterate HashMap/HashSet and build text with format!; comparing scanners with use-insertion needs the emitter",
  "C16": "the verdict is the exit status of a spawned cargo test on a generated project; aggregation is inlined in a function doing file discovery and printing",
- "C17": "hook selection contains tracing::warn! whose thread-local dispatcher crashes kani-compiler (ICE); the call-site rewrite is AstLowering::lower_expr (HashMap state)",
  "C18": "Kani has no concurrency model; the handlers (lexer, parser, TypeChecker, tokio RwLock, tower-lsp Client) are not executable under CBMC; a hand-written model would not be the real code",
  "C20": "the code under test is #[derive] expansion of emitter output plus serde_json at run time; it does not exist until rustc compiles a generated project",
 }
@@ -110,7 +136,7 @@ m = {
  "engines": [
    {"name": "E1 kani", "path": "kani/", "serves_properties": [c for c in ("C01", "C05", "C07", "C11", "C13", "C14", "C19") if c in claimed],
     "kind_free_text": "Kani 0.68 / CBMC 6.11 proof harnesses in an external crate with path dependencies on /repo; counterexamples replayed by replay/ (same harness bodies, native, dev+release)"},
-   {"name": "E2 mirsmt", "path": "mirsmt/", "serves_properties": [c for c in ("C01", "C04", "C05", "C06", "C07", "C13") if c in claimed],
+   {"name": "E2 mirsmt", "path": "mirsmt/", "serves_properties": [c for c in ("C01", "C04", "C05", "C06", "C07", "C11", "C13", "C14", "C17") if c in claimed],
     "kind_free_text": "own symbolic executor over rustc's -Zunpretty=mir dump of the working tree, emitting SMT-LIB for cvc5 1.0 / z3 4.8.12"},
  ],
  "checks": [],
@@ -126,7 +152,7 @@ for pid in sorted(CLAIMED):
             "thorough_cmd": f"./check {pid} --tier thorough",
             "evidence_file": f"/verif/evidence/{pid}.json",
             "replay_cmd_template": f"./check {pid} --replay {{path}}",
-            "engine": {"C04": "E2 mirsmt + E1 kani", "C05": "E1 kani + E2 mirsmt", "C06": "E2 mirsmt + E1 kani", "C01": "E2 mirsmt + E1 kani", "C07": "E2 mirsmt + E1 kani", "C13": "E1 kani + E2 mirsmt"}.get(pid, "E1 kani"),
+            "engine": {"C04": "E2 mirsmt + E1 kani", "C05": "E1 kani + E2 mirsmt", "C06": "E2 mirsmt + E1 kani", "C01": "E2 mirsmt + E1 kani", "C07": "E2 mirsmt + E1 kani", "C13": "E1 kani + E2 mirsmt", "C11": "E1 kani + E2 mirsmt", "C14": "E1 kani + E2 mirsmt", "C17": "E2 mirsmt"}.get(pid, "E1 kani"),
             "level_claimed": {"category": c["cat"], "text": c["text"], "design_ref": c["ref"]},
             "level_note": c["note"],
             "technique": c["tech"],
